@@ -1,1 +1,663 @@
-/- C19 — property theorems (stub: not built yet). -/
+/-
+C19 — Dominant bpm, scroll speed and SV normalisation follow their definitions.
+Property theorems (helper lemmas: `Reamber/Lemmas/Analysis.lean`).  Statements are about the executable model
+`Reamber/Model/Analysis.lean`, which the correspondence check ties to
+reamber/algorithms/{utils/dominant_bpm.py, analysis/scroll_speed.py, generate/sv_normalize.py} on every run,
+against the declarative `Reamber/Spec/Analysis.lean` (the same definitions the driver evaluates on the
+implementation's output).
+-/
+import Reamber.Lemmas.AnalysisSpeed
+import Reamber.Generated.Analysis
+
+namespace Reamber.Analysis
+
+/-- Tie to the source: the literals of scroll_speed.py's helper frames, the `override_bpm` defaults, the set of
+games with SVs and the fact that `stack()` ranges over the tempo/SV lists are what the translator read from
+the code. Re-checked whenever they change. -/
+theorem consts_tie :
+    resetMult = Generated.Analysis.resetMult ∧
+    headTailMult = Generated.Analysis.headTailMult ∧
+    headTailBpm = Generated.Analysis.headTailBpm ∧
+    overrideDefault = Generated.Analysis.overrideDefault ∧
+    gamesWithSv = Generated.Analysis.gamesWithSv ∧
+    sortKinds = Generated.Analysis.sortKinds ∧
+    Generated.Analysis.stackCoversTempoAndSv = true := by decide +kernel
+
+/-! ### dominant bpm -/
+
+/-- The rows `dominant_bpm` groups: after both sorts and the positional pairing, each tempo point (in time
+order) carries exactly its own active span — for tempo rows in any order. -/
+theorem dominantRows_eq (bpms : List Tp) (L : Rat) (hd : (bpms.map (·.time)).Nodup) (hL : ∀ p ∈ bpms, p.time ≤ L) :
+    dominantRows bpms L = (sortTp bpms).map (fun p => (p.bpm, span (bpms.map (·.time)) L p.time)) := by
+  have hperm : (sortTp bpms).Perm bpms := sortTp_perm bpms
+  have hsorted := sortTp_sorted bpms
+  have hnd : ((sortTp bpms).map (·.time)).Nodup := (hperm.map _).nodup_iff.mpr hd
+  have hstrict : ((sortTp bpms).map (·.time)).Pairwise (· < ·) := by
+    have h1 : ((sortTp bpms).map (·.time)).Pairwise (· ≤ ·) := List.pairwise_map.mpr hsorted
+    exact (h1.and hnd).imp (fun h => lt_of_le_of_ne h.1 h.2)
+  have hLs : ∀ p ∈ sortTp bpms, p.time ≤ L := fun p hp => hL p (hperm.mem_iff.mp hp)
+  have hsortid : sortRat ((sortTp bpms).map (·.time) ++ [L]) = (sortTp bpms).map (·.time) ++ [L] := by
+    apply isort_eq_self
+    rw [List.pairwise_append]
+    refine ⟨hstrict.imp (fun h => by simpa using le_of_lt h), by simp, ?_⟩
+    intro x hx y hy
+    simp only [List.mem_singleton] at hy
+    subst hy
+    obtain ⟨p, hp, rfl⟩ := List.mem_map.mp hx
+    simpa using hLs p hp
+  unfold dominantRows
+  simp only []
+  rw [hsortid, rows_sorted (sortTp bpms) L [] hstrict (by simp) hLs]
+  simp only [List.nil_append]
+  apply List.map_congr_left
+  intro p _
+  rw [span_perm (hperm.map _)]
+
+/-- `groupby(level=0).sum()` of those rows is the declarative total of every bpm value -/
+theorem groupSum_dominantRows (bpms : List Tp) (L : Rat) (hd : (bpms.map (·.time)).Nodup)
+    (hL : ∀ p ∈ bpms, p.time ≤ L) :
+    groupSum (dominantRows bpms L)
+      = (groupKeys ((sortTp bpms).map (·.bpm))).map (fun k => (k, totalTime bpms L k)) := by
+  have hperm : (sortTp bpms).Perm bpms := sortTp_perm bpms
+  unfold groupSum
+  rw [dominantRows_eq bpms L hd hL]
+  have hk : ((sortTp bpms).map (fun p => (p.bpm, span (bpms.map (·.time)) L p.time))).map (·.1)
+      = (sortTp bpms).map (·.bpm) := by simp [List.map_map, Function.comp_def]
+  rw [hk]
+  apply List.map_congr_left
+  intro k _
+  rw [filter_rows (fun p => span (bpms.map (·.time)) L p.time) k (sortTp bpms)]
+  rw [sumRat_perm ((hperm.filter _).map _)]
+  rfl
+
+/-- **dominant_is_max.** For every chart with at least one tempo point, no two tempo points at the same
+time, tempo rows in *any* order, and `last` at or after every tempo point (it is `stack().offset.max()`),
+`dominant_bpm` returns a bpm value of the chart whose total active time between the first tempo point and
+the last object is maximal. (Ties: the value returned is one of the maximisers.) -/
+theorem dominant_is_max (bpms : List Tp) (L : Rat) (hne : bpms ≠ [])
+    (hd : (bpms.map (·.time)).Nodup) (hL : ∀ p ∈ bpms, p.time ≤ L) :
+    ∃ v, dominantBpm bpms L = some v ∧ IsDominant bpms L v := by
+  have hperm : (sortTp bpms).Perm bpms := sortTp_perm bpms
+  have hmemk : ∀ k, k ∈ groupKeys ((sortTp bpms).map (·.bpm)) ↔ ∃ p ∈ bpms, p.bpm = k := by
+    intro k
+    rw [mem_groupKeys, List.mem_map]
+    constructor
+    · rintro ⟨p, hp, rfl⟩; exact ⟨p, hperm.mem_iff.mp hp, rfl⟩
+    · rintro ⟨p, hp, rfl⟩; exact ⟨p, hperm.mem_iff.mpr hp, rfl⟩
+  have hgs := groupSum_dominantRows bpms L hd hL
+  obtain ⟨p0, hp0⟩ := List.exists_mem_of_ne_nil bpms hne
+  have hne' : groupSum (dominantRows bpms L) ≠ [] := by
+    rw [hgs]
+    apply List.ne_nil_of_mem (a := (p0.bpm, totalTime bpms L p0.bpm))
+    exact List.mem_map.mpr ⟨p0.bpm, (hmemk _).mpr ⟨p0, hp0, rfl⟩, rfl⟩
+  obtain ⟨q, hq, hidx, hmax⟩ := idxmax_spec hne'
+  rw [hgs] at hq hmax
+  obtain ⟨k, hk, rfl⟩ := List.mem_map.mp hq
+  refine ⟨k, hidx, (hmemk k).mp hk, ?_⟩
+  intro p hp
+  exact hmax (p.bpm, totalTime bpms L p.bpm)
+    (List.mem_map.mpr ⟨p.bpm, (hmemk _).mpr ⟨p, hp, rfl⟩, rfl⟩)
+
+/-- the decidable form the driver evaluates on implementation output is the stated relation -/
+theorem isDominantB_iff (bpms : List Tp) (L v : Rat) : isDominantB bpms L v = true ↔ IsDominant bpms L v := by
+  simp [isDominantB, IsDominant]
+
+/-! non-vacuity: unsorted rows, a repeated bpm value, an exact tie (both 100 and 200 total 1500 ms; the code returns 100) -/
+example : dominantBpm [⟨1000, 200⟩, ⟨0, 100⟩, ⟨1500, 100⟩, ⟨2000, 200⟩] 3000 = some 100 := by decide +kernel
+example : IsDominant [⟨1000, 200⟩, ⟨0, 100⟩, ⟨1500, 100⟩, ⟨2000, 200⟩] 3000 200 := by
+  rw [← isDominantB_iff]; decide +kernel
+example : ¬ IsDominant [⟨1000, 200⟩, ⟨0, 100⟩] 1500 200 := by
+  rw [← isDominantB_iff]; decide +kernel
+
+/-- the error branch is covered, not totalised: with no tempo point `idxmax` raises (model: `none`) -/
+theorem dominant_empty (L : Rat) : dominantBpm [] L = none := rfl
+
+/-! ### reference bpm: an override replaces the dominant bpm -/
+
+theorem refBpm_override (bpms : List Tp) (L b : Rat) (hb : b ≠ 0) : refBpm bpms L (some b) = some b := by
+  simp [refBpm, hb]
+
+theorem refBpm_default (bpms : List Tp) (L : Rat) : refBpm bpms L overrideDefault = dominantBpm bpms L := rfl
+
+/-- the reference is the override when one is given (non-zero), else a dominant bpm -/
+theorem refBpm_spec (bpms : List Tp) (L : Rat) (ov : Option Rat) (hne : bpms ≠ [])
+    (hd : (bpms.map (·.time)).Nodup) (hL : ∀ p ∈ bpms, p.time ≤ L) (hov : ∀ b, ov = some b → b ≠ 0) :
+    ∃ ref, refBpm bpms L ov = some ref ∧ IsRef bpms L ov ref := by
+  cases ov with
+  | none => exact dominant_is_max bpms L hne hd hL
+  | some b => exact ⟨b, refBpm_override bpms L b (hov b (by simp)), rfl⟩
+
+/-! ### SV normalisation -/
+
+/-- **sv_normalize_spec.** One SV per tempo point (row by row), at its time, whose multiplier times that bpm
+is the reference — for any reference, any number and order of tempo points, bpm ≠ 0. -/
+theorem sv_normalize_spec (bpms : List Tp) (ref : Rat) (hb : ∀ p ∈ bpms, p.bpm ≠ 0) :
+    SvNormOk bpms ref (svNormalizeWith bpms ref) := by
+  refine ⟨by simp [svNormalizeWith], ?_⟩
+  intro i h h'
+  simp only [svNormalizeWith, List.getElem_map]
+  exact ⟨trivial, div_mul_cancel₀ ref (hb _ (List.getElem_mem h))⟩
+
+/-- `sv_normalize(m, override)`: the reference is the override or a dominant bpm, and the result normalises
+every tempo point to it -/
+theorem sv_normalize_correct (bpms : List Tp) (L : Rat) (ov : Option Rat) (hne : bpms ≠ [])
+    (hd : (bpms.map (·.time)).Nodup) (hL : ∀ p ∈ bpms, p.time ≤ L) (hb : ∀ p ∈ bpms, p.bpm ≠ 0)
+    (hov : ∀ b, ov = some b → b ≠ 0) :
+    ∃ ref out, svNormalize bpms L ov = some out ∧ IsRef bpms L ov ref ∧ SvNormOk bpms ref out := by
+  obtain ⟨ref, href, hspec⟩ := refBpm_spec bpms L ov hne hd hL hov
+  exact ⟨ref, svNormalizeWith bpms ref, by simp [svNormalize, href], hspec, sv_normalize_spec bpms ref hb⟩
+
+theorem svNormOkB_sound (bpms : List Tp) (ref : Rat) (out : List Sv) :
+    svNormOkB bpms ref out = true → SvNormOk bpms ref out := by
+  intro h
+  simp only [svNormOkB, Bool.and_eq_true, decide_eq_true_eq, List.all_eq_true] at h
+  refine ⟨h.1, ?_⟩
+  intro i hi hi'
+  have := h.2 (bpms[i], out[i]) (by
+    rw [List.mem_iff_getElem]
+    exact ⟨i, by simp [List.length_zip, hi, hi'], by simp⟩)
+  simpa using this
+
+example : svNormalize [⟨1000, 200⟩, ⟨0, 100⟩] 1500 none = some [⟨1000, 1/2⟩, ⟨0, 1⟩] := by decide +kernel
+example : svNormalize [⟨1000, 200⟩, ⟨0, 100⟩] 1500 (some 300) = some [⟨1000, 3/2⟩, ⟨0, 3⟩] := by decide +kernel
+
+/-! ### scroll speed
+
+The full statement is `scroll_speed_spec` (below, proved): for every chart in the domain the model's result
+satisfies the executable specification `speedOkB` - its offsets are exactly the breakpoints and every value at
+or after the first tempo point is `active bpm / ref · active multiplier` - for a reference that is the override
+or a dominant bpm.  Pieces: the reference (`scroll_speed_ref_partial`), the step-function mechanism
+(`ffill_last_valid`, `ffill_sorted_some/none`), the tempo side (`ffill_active`, `sorted_bpmRows_ok`,
+`bpm_frame_spec`), games without SVs (`scroll_speed_nosv_spec`), the SV side (`svFrame_spec`: concat +
+groupby.last + ffill; `merged_bpm_col`, `merged_mult_col`: the outer merge; `filled_frame_spec`: sort + fills of
+the merged frame), games with SVs (`scroll_speed_sv_spec`).  The theorems named `…_partial` are the earlier,
+weaker statements; they are kept because the full ones are built on them. -/
+
+/-- the reference of `scroll_speed` is the override when one is given, else a dominant bpm; the result is the
+filled frame mapped row by row through `speedOf ref` -/
+theorem scroll_speed_ref_partial (hasSv : Bool) (bpms : List Tp) (svs : List Sv) (omin omax : Rat)
+    (ov : Option Rat) (hne : bpms ≠ []) (hd : (bpms.map (·.time)).Nodup) (hL : ∀ p ∈ bpms, p.time ≤ omax)
+    (hov : ∀ b, ov = some b → b ≠ 0) :
+    ∃ ref, IsRef bpms omax ov ref ∧
+      scrollSpeed hasSv bpms svs omin omax ov = some ((speedFrame hasSv bpms svs omin omax).map (speedOf ref)) := by
+  obtain ⟨ref, href, hspec⟩ := refBpm_spec bpms omax ov hne hd hL hov
+  exact ⟨ref, hspec, by simp [scrollSpeed, href]⟩
+
+/-- speed = bpm / reference · multiplier, row by row -/
+theorem speedOf_formula (ref t b m : Rat) : speedOf ref ⟨t, some b, some m⟩ = (t, some (b / ref * m)) := rfl
+
+/-- games without SVs: the multiplier column is the constant 1 -/
+theorem speedFrame_noSv (bpms : List Tp) (svs : List Sv) (omin omax : Rat) :
+    speedFrame false bpms svs omin omax = (bpmFrame bpms omin omax).map (fun r => ⟨r.1, r.2, some 1⟩) := rfl
+
+/- `ffill_last_valid`, `ffill_value_source` (the step-function mechanism, for every frame) live in
+`Lemmas/AnalysisSpeed.lean`. -/
+
+/-- **ffill_active** — the forward fill of a tempo frame is the active-tempo step function. For every list of
+tempo points with distinct times and *every* arrangement `l` of the frame's rows that is sorted by offset and
+never puts a valueless row before a valued row of the same offset: each row of `l.ffill()` carries the bpm of
+the tempo point in force at its offset, or nothing when it lies strictly before every tempo point. -/
+theorem ffill_active (bpms : List Tp) (l : List Row)
+    (hs : l.Pairwise (fun a b => a.1 ≤ b.1)) (hf : FrameOf bpms l) (hv : ValuedFirst l)
+    (x : Row) (hx : x ∈ ffill l) :
+    (∃ p, IsActiveTp bpms x.1 p ∧ x.2 = some p.bpm) ∨ (x.2 = none ∧ ∀ p ∈ bpms, x.1 < p.time) := by
+  obtain ⟨a, r, b, hl, rfl⟩ := ffill_last_valid l x hx
+  obtain ⟨t, rv⟩ := r
+  rw [List.map_append, List.map_cons, List.map_nil, lastSome_snoc]
+  rw [hl] at hs
+  obtain ⟨hsa, hsrb, hab⟩ := List.pairwise_append.mp hs
+  have hrb := (List.pairwise_cons.mp hsrb).1
+  cases rv with
+  | some v' =>
+    left
+    refine ⟨⟨t, v'⟩, ⟨hf.1 t v' (by rw [hl]; simp), le_refl _, fun q _ hq => hq⟩, rfl⟩
+  | none =>
+    simp only [pick]
+    -- a tempo row can neither be the marker row itself nor follow it at the same offset
+    have hnotb : ∀ q ∈ bpms, (q.time, some q.bpm) ∈ b → t < q.time := by
+      intro q _ hqb
+      have h1 : t ≤ q.time := hrb _ hqb
+      rcases lt_or_eq_of_le h1 with h | h
+      · exact h
+      · have := hv a b t hl _ hqb h.symm
+        simp at this
+    cases hls : lastSome (a.map (·.2)) with
+    | none =>
+      right
+      refine ⟨rfl, ?_⟩
+      intro q hq
+      have hrow : (q.time, some q.bpm) ∈ l := hf.2 q hq
+      rw [hl] at hrow
+      rcases List.mem_append.mp hrow with h | h
+      · have := lastSome_eq_none hls (some q.bpm) (List.mem_map.mpr ⟨_, h, rfl⟩)
+        simp at this
+      · rcases List.mem_cons.mp h with h | h
+        · simp at h
+        · exact hnotb q hq h
+    | some v =>
+      left
+      obtain ⟨v1, v2, hsplit, hnone⟩ := lastSome_eq_some hls
+      obtain ⟨P1, P2', hP, hP1, hP2'⟩ := List.map_eq_append_iff.mp hsplit
+      obtain ⟨w, P2, hP2, hw, hP2m⟩ := List.map_eq_cons_iff.mp hP2'
+      subst hP2
+      obtain ⟨wt, wv⟩ := w
+      simp only at hw
+      subst hw
+      have hwa : (wt, some v) ∈ a := by rw [hP]; simp
+      have hP2none : ∀ y ∈ P2, y.2 = none := by
+        intro y hy
+        exact hnone _ (by rw [← hP2m]; exact List.mem_map.mpr ⟨y, hy, rfl⟩)
+      rw [hP] at hsa
+      obtain ⟨_, _, hP1w⟩ := List.pairwise_append.mp hsa
+      refine ⟨⟨wt, v⟩, ⟨hf.1 wt v (by rw [hl]; exact List.mem_append_left _ hwa), ?_, ?_⟩, rfl⟩
+      · exact hab _ hwa (t, none) (by simp)
+      · intro q hq hqt
+        have hrow : (q.time, some q.bpm) ∈ l := hf.2 q hq
+        rw [hl] at hrow
+        rcases List.mem_append.mp hrow with h | h
+        · rw [hP] at h
+          rcases List.mem_append.mp h with h | h
+          · exact hP1w _ h (wt, some v) (by simp)
+          · rcases List.mem_cons.mp h with h | h
+            · simp only [Prod.mk.injEq] at h
+              exact le_of_eq h.1
+            · have := hP2none _ h
+              simp at this
+        · rcases List.mem_cons.mp h with h | h
+          · simp at h
+          · exact absurd hqt (not_le.mpr (hnotb q hq h))
+
+/-- the stable arrangement the model sorts into satisfies the three hypotheses of `ffill_active` -/
+theorem sorted_bpmRows_ok (bpms : List Tp) (omin omax : Rat) :
+    (sortRow (bpmRows bpms omin omax)).Pairwise (fun a b => a.1 ≤ b.1) ∧
+    FrameOf bpms (sortRow (bpmRows bpms omin omax)) ∧ ValuedFirst (sortRow (bpmRows bpms omin omax)) := by
+  refine ⟨sortRow_sorted _, ⟨?_, ?_⟩, ?_⟩
+  · intro t b h
+    have h' := (isort_perm _ _).mem_iff.mp h
+    simp only [bpmRows, headTailBpm, List.zip_cons_cons, List.zip_nil_right, List.mem_append, List.mem_map,
+      List.mem_cons, Prod.mk.injEq, List.not_mem_nil, or_false] at h'
+    rcases h' with ⟨p, hp, rfl, hb⟩ | h' | h'
+    · simp only [Option.some.injEq] at hb
+      subst hb
+      exact hp
+    · simp at h'
+    · simp at h'
+  · intro p hp
+    apply (isort_perm _ _).mem_iff.mpr
+    simp only [bpmRows, List.mem_append, List.mem_map]
+    exact Or.inl ⟨p, hp, rfl⟩
+  · apply VF_valuedFirst
+    unfold bpmRows
+    apply VF_sortRow
+    · intro r hr
+      obtain ⟨p, _, rfl⟩ := List.mem_map.mp hr
+      simp
+    · intro r hr
+      simp only [headTailBpm, List.zip_cons_cons, List.zip_nil_right, List.mem_cons, List.not_mem_nil, or_false] at hr
+      rcases hr with rfl | rfl <;> rfl
+
+/-- **bpm_frame_spec** — the tempo step function of `scroll_speed` (sort, ffill, bfill, drop_duplicates), for
+every tempo list in any row order and any first / last stacked offset: each row of the frame carries the bpm
+of a tempo point in force at its offset, or lies strictly before every tempo point (where the statement is
+silent). -/
+theorem bpm_frame_spec (bpms : List Tp) (omin omax : Rat) (x : Row) (hx : x ∈ bpmFrame bpms omin omax) :
+    (∃ p, IsActiveTp bpms x.1 p ∧ x.2 = some p.bpm) ∨ (∀ p ∈ bpms, x.1 < p.time) := by
+  obtain ⟨hs, hf, hv⟩ := sorted_bpmRows_ok bpms omin omax
+  have hx' := mem_dropDup (by simpa [bpmFrame, bpmFrameOf] using hx)
+  rcases mem_bfill hx' with h | h
+  · rcases ffill_active bpms _ hs hf hv x h with h1 | h1
+    · exact Or.inl h1
+    · exact Or.inr h1.2
+  · rcases ffill_active bpms _ hs hf hv (x.1, none) h with ⟨p, _, hp⟩ | h1
+    · simp at hp
+    · exact Or.inr h1.2
+
+/-- **scroll_speed_nosv_spec_partial** — games without SVs: the reference is the override or a dominant bpm,
+and every result row at or after some tempo point is `active bpm / reference` (· 1). Missing for the full
+`scroll_speed_spec`: that the result's offsets are exactly the breakpoints, and the SV side. -/
+theorem scroll_speed_nosv_spec_partial (bpms : List Tp) (svs : List Sv) (omin omax : Rat) (ov : Option Rat)
+    (hne : bpms ≠ []) (hd : (bpms.map (·.time)).Nodup) (hL : ∀ p ∈ bpms, p.time ≤ omax)
+    (hov : ∀ b, ov = some b → b ≠ 0) :
+    ∃ ref out, scrollSpeed false bpms svs omin omax ov = some out ∧ IsRef bpms omax ov ref ∧
+      ∀ y ∈ out, (∃ p, IsActiveTp bpms y.1 p ∧ y.2 = some (p.bpm / ref * 1)) ∨ (∀ p ∈ bpms, y.1 < p.time) := by
+  obtain ⟨ref, href, hout⟩ := scroll_speed_ref_partial false bpms svs omin omax ov hne hd hL hov
+  refine ⟨ref, _, hout, href, ?_⟩
+  intro y hy
+  rw [speedFrame_noSv, List.map_map] at hy
+  obtain ⟨x, hx, rfl⟩ := List.mem_map.mp hy
+  rcases bpm_frame_spec bpms omin omax x hx with ⟨p, hp, hv⟩ | h
+  · left
+    refine ⟨p, hp, ?_⟩
+    simp [speedOf, optMul, hv]
+  · right
+    simpa [speedOf] using h
+
+/-- a row that carries `active bpm / ref` (or lies before every tempo point) passes the executable row check -/
+theorem rowOkB_noSv_of (bpms : List Tp) (svs : List Sv) (ref : Rat) (y : Rat × Option Rat)
+    (h : (∃ p, IsActiveTp bpms y.1 p ∧ y.2 = some (p.bpm / ref * 1)) ∨ (∀ p ∈ bpms, y.1 < p.time)) :
+    rowOkB false bpms svs ref y = true := by
+  unfold rowOkB
+  rcases h with ⟨p, hp, hv⟩ | h
+  · rw [hv, Bool.or_eq_true]
+    right
+    simp only [allowedSpeeds, List.contains_iff_mem, List.mem_flatMap]
+    exact ⟨p, mem_activeTps.mpr hp, by simp⟩
+  · rw [activeTps_nil_of_before h]
+    rfl
+
+/-- **scroll_speed_nosv_spec** — games without SVs, in full: the reference is the override or a dominant bpm,
+the result's offsets are exactly the breakpoints (tempo times ∪ {first, last stacked offset}) and every value
+at or after a tempo point is `active bpm / reference`: the executable specification `speedOkB` — the one the
+driver evaluates on the implementation's output — holds on the model's output, for every chart. -/
+theorem scroll_speed_nosv_spec (bpms : List Tp) (svs : List Sv) (omin omax : Rat) (ov : Option Rat)
+    (hne : bpms ≠ []) (hd : (bpms.map (·.time)).Nodup) (hL : ∀ p ∈ bpms, p.time ≤ omax)
+    (hov : ∀ b, ov = some b → b ≠ 0) :
+    ∃ ref out, scrollSpeed false bpms svs omin omax ov = some out ∧ IsRef bpms omax ov ref ∧
+      speedOkB false bpms svs omin omax ref out = true := by
+  obtain ⟨ref, out, hout, href, hrows⟩ := scroll_speed_nosv_spec_partial bpms svs omin omax ov hne hd hL hov
+  refine ⟨ref, out, hout, href, ?_⟩
+  obtain ⟨ref', _, hout'⟩ := scroll_speed_ref_partial false bpms svs omin omax ov hne hd hL hov
+  rw [hout'] at hout
+  simp only [Option.some.injEq] at hout
+  simp only [speedOkB, Bool.and_eq_true, decide_eq_true_eq, List.all_eq_true]
+  refine ⟨?_, fun y hy => rowOkB_noSv_of bpms svs ref y (hrows y hy)⟩
+  unfold breakpoints
+  apply groupKeys_congr
+  intro t
+  have hfst : out.map (·.1) = (bpmFrame bpms omin omax).map (·.1) := by
+    rw [← hout, speedFrame_noSv]
+    simp [List.map_map, Function.comp_def, speedOf]
+  rw [hfst, mem_fst_bpmFrame]
+  simp
+
+/-! #### games with SVs -/
+
+theorem tp_eq_of_time {bpms : List Tp} (hd : (bpms.map (·.time)).Nodup) {p q : Tp} (hp : p ∈ bpms) (hq : q ∈ bpms)
+    (h : p.time = q.time) : p = q := by
+  induction bpms with
+  | nil => simp at hp
+  | cons a t ih =>
+    simp only [List.map_cons, List.nodup_cons, List.mem_map, not_exists, not_and] at hd
+    rcases List.mem_cons.mp hp with rfl | hp' <;> rcases List.mem_cons.mp hq with rfl | hq'
+    · rfl
+    · exact absurd h.symm (hd.1 q hq')
+    · exact absurd h (hd.1 p hp')
+    · exact ih hd.2 hp' hq'
+
+/-- every offset of the tempo frame is an offset of the SV frame -/
+theorem fst_bpmFrame_sub_svFrame (bpms : List Tp) (svs : List Sv) (omin omax t : Rat)
+    (h : t ∈ (bpmFrame bpms omin omax).map (·.1)) : t ∈ (svFrame bpms svs omin omax).map (·.1) := by
+  unfold svFrame
+  rw [map_fst_ffill, map_fst_groupLast, mem_groupKeys, mem_fst_svRows]
+  rcases (mem_fst_bpmFrame bpms omin omax t).mp h with h | h | h
+  · exact Or.inl h
+  · exact Or.inr (Or.inl h)
+  · exact Or.inr (Or.inr (Or.inl h))
+
+/-- the bpm column of the merged frame: a value is the bpm in force at the row's offset (or the row lies before
+every tempo point); at a tempo time the value is never empty -/
+theorem merged_bpm_col (bpms : List Tp) (svs : List Sv) (omin omax : Rat) (q : MRow)
+    (hq : q ∈ mergeOuter (bpmFrame bpms omin omax) (svFrame bpms svs omin omax)) :
+    (∀ v, q.bpm = some v → (∃ p, IsActiveTp bpms q.t p ∧ v = p.bpm) ∨ (∀ p ∈ bpms, q.t < p.time)) ∧
+    (∀ p ∈ bpms, q.t = p.time → q.bpm ≠ none) := by
+  obtain ⟨hb, _⟩ := mem_mergeOuter hq
+  constructor
+  · intro v hv
+    rcases hb with ⟨x, hx, hxt, hxv⟩ | ⟨hn, _⟩
+    · rw [← hxt]
+      rcases bpm_frame_spec bpms omin omax x hx with ⟨p, hp, hpv⟩ | h
+      · left
+        refine ⟨p, hp, ?_⟩
+        rw [hv, hpv] at hxv
+        exact Option.some.inj hxv
+      · exact Or.inr h
+    · rw [hn] at hv; simp at hv
+  · intro p hp hqt
+    rcases hb with ⟨x, hx, hxt, hxv⟩ | ⟨_, hno⟩
+    · rw [hxv]
+      rcases bpm_frame_spec bpms omin omax x hx with ⟨p', _, hpv⟩ | h
+      · rw [hpv]; simp
+      · have := h p hp
+        rw [hxt, hqt] at this
+        exact absurd this (lt_irrefl _)
+    · exfalso
+      have hmem : q.t ∈ (bpmFrame bpms omin omax).map (·.1) :=
+        (mem_fst_bpmFrame ..).mpr (Or.inl (List.mem_map.mpr ⟨p, hp, hqt.symm⟩))
+      obtain ⟨x, hx, hxt⟩ := List.mem_map.mp hmem
+      exact hno x hx hxt
+
+/-- the multiplier column of the merged frame: where a tempo point is in force the value is a multiplier the
+specification admits -/
+theorem merged_mult_col (bpms : List Tp) (svs : List Sv) (omin omax : Rat) (hmins : ∀ s ∈ svs, omin ≤ s.time)
+    (q : MRow) (hq : q ∈ mergeOuter (bpmFrame bpms omin omax) (svFrame bpms svs omin omax))
+    (p : Tp) (hp : IsActiveTp bpms q.t p) :
+    ∃ m, q.mult = some m ∧ m ∈ activeMults svs p.time q.t := by
+  obtain ⟨_, hm⟩ := mem_mergeOuter hq
+  have hqt : q.t ∈ (svFrame bpms svs omin omax).map (·.1) := by
+    rcases mem_t_mergeOuter.mp (List.mem_map.mpr ⟨q, hq, rfl⟩) with h | h
+    · exact fst_bpmFrame_sub_svFrame bpms svs omin omax q.t h
+    · exact h
+  rcases hm with ⟨y, hy, hyt, hyv⟩ | ⟨_, hno⟩
+  · rw [hyv]
+    have := svFrame_spec bpms svs omin omax hmins y hy p (by rw [hyt]; exact hp)
+    rw [hyt] at this
+    exact this
+  · exfalso
+    obtain ⟨y, hy, hyt⟩ := List.mem_map.mp hqt
+    exact hno y hy hyt
+
+/-- **the merged, sorted and filled frame**: at every row where a tempo point `p` is in force, the bpm column
+holds `p.bpm` and the multiplier column a multiplier the specification admits -/
+theorem filled_frame_spec (bpms : List Tp) (svs : List Sv) (omin omax : Rat)
+    (hd : (bpms.map (·.time)).Nodup) (hmins : ∀ s ∈ svs, omin ≤ s.time)
+    (q : MRow) (hq : q ∈ speedFrame true bpms svs omin omax) (p : Tp) (hp : IsActiveTp bpms q.t p) :
+    q.bpm = some p.bpm ∧ ∃ m, q.mult = some m ∧ m ∈ activeMults svs p.time q.t := by
+  simp only [speedFrame, if_true] at hq
+  -- the sorted merged frame
+  have hperm := isort_perm (fun a b : MRow => decide (a.t ≤ b.t))
+    (mergeOuter (bpmFrame bpms omin omax) (svFrame bpms svs omin omax))
+  have hsorted : (sortMRow (mergeOuter (bpmFrame bpms omin omax) (svFrame bpms svs omin omax))).Pairwise
+      (fun a b => a.t ≤ b.t) := by
+    have := isort_pairwise (fun a b : MRow => decide (a.t ≤ b.t))
+      (by intro a b; simp only [decide_eq_true_eq]; exact le_total _ _)
+      (by intro a b c; simp only [decide_eq_true_eq]; exact le_trans)
+      (mergeOuter (bpmFrame bpms omin omax) (svFrame bpms svs omin omax))
+    simpa [sortMRow] using this
+  have hmemS : ∀ q', q' ∈ sortMRow (mergeOuter (bpmFrame bpms omin omax) (svFrame bpms svs omin omax)) →
+      q' ∈ mergeOuter (bpmFrame bpms omin omax) (svFrame bpms svs omin omax) := fun q' h => hperm.mem_iff.mp h
+  have hmemS' : ∀ q', q' ∈ mergeOuter (bpmFrame bpms omin omax) (svFrame bpms svs omin omax) →
+      q' ∈ sortMRow (mergeOuter (bpmFrame bpms omin omax) (svFrame bpms svs omin omax)) := fun q' h => hperm.mem_iff.mpr h
+  generalize hS : sortMRow (mergeOuter (bpmFrame bpms omin omax) (svFrame bpms svs omin omax)) = S at *
+  obtain ⟨pb, hpb, pm, hpm, hpbt, hpmt, hpbv, hpmv⟩ := mem_fillMerged hq
+  have hsB : (S.map fun r => (r.t, r.bpm)).Pairwise (fun a b => a.1 ≤ b.1) := List.pairwise_map.mpr hsorted
+  -- facts about the bpm column
+  have hBval : ∀ u ∈ S.map (fun r => (r.t, r.bpm)), ∀ v, u.2 = some v →
+      (∃ p', IsActiveTp bpms u.1 p' ∧ v = p'.bpm) ∨ (∀ p' ∈ bpms, u.1 < p'.time) := by
+    intro u hu v hv
+    obtain ⟨q', hq', rfl⟩ := List.mem_map.mp hu
+    exact (merged_bpm_col bpms svs omin omax q' (hmemS q' hq')).1 v hv
+  have hBtempo : ∀ p' ∈ bpms, ∀ u ∈ S.map (fun r => (r.t, r.bpm)), u.1 = p'.time → u.2 ≠ none := by
+    intro p' hp' u hu hut
+    obtain ⟨q', hq', rfl⟩ := List.mem_map.mp hu
+    exact (merged_bpm_col bpms svs omin omax q' (hmemS q' hq')).2 p' hp' hut
+  have hBexists : ∀ p' ∈ bpms, ∃ u ∈ S.map (fun r => (r.t, r.bpm)), u.1 = p'.time := by
+    intro p' hp'
+    have : p'.time ∈ (mergeOuter (bpmFrame bpms omin omax) (svFrame bpms svs omin omax)).map (·.t) :=
+      mem_t_mergeOuter.mpr (Or.inl ((mem_fst_bpmFrame ..).mpr (Or.inl (List.mem_map.mpr ⟨p', hp', rfl⟩))))
+    obtain ⟨q', hq', hqt⟩ := List.mem_map.mp this
+    exact ⟨(q'.t, q'.bpm), List.mem_map.mpr ⟨q', hmemS' q' hq', rfl⟩, hqt⟩
+  -- an empty filled value at this offset is impossible
+  have hnone : ∀ x ∈ ffill (S.map fun r => (r.t, r.bpm)), x.1 = q.t → x.2 = none → False := by
+    intro x hx hxt hxv
+    obtain ⟨⟨r, hr, hr1, hr2⟩, hge⟩ := ffill_sorted_none hsB hx hxv
+    obtain ⟨u, hu, hut⟩ := hBexists p hp.1
+    have h1 : x.1 ≤ u.1 := hge u hu (hBtempo p hp.1 u hu hut)
+    have heq : q.t = p.time := le_antisymm (by rw [← hxt, ← hut]; exact h1) hp.2.1
+    exact hBtempo p hp.1 r hr (by rw [hr1, hxt, heq]) hr2
+  constructor
+  · -- the bpm column
+    rw [← hpbv]
+    rcases mem_bfill hpb with h | h
+    · cases hv : pb.2 with
+      | none => exact absurd hv (fun hv => hnone pb h hpbt hv)
+      | some B =>
+        obtain ⟨w, hw, hwv, hwle, hlt, hself⟩ := ffill_sorted_some hsB h hv
+        rw [hpbt] at hwle hlt hself
+        -- the tempo point in force lies at or before the source row
+        have hpw : p.time ≤ w.1 := by
+          obtain ⟨u, hu, hut⟩ := hBexists p hp.1
+          rcases lt_or_eq_of_le hp.2.1 with h' | h'
+          · rw [← hut]; exact hlt u hu (hBtempo p hp.1 u hu hut) (by rw [hut]; exact h')
+          · rcases lt_or_eq_of_le hwle with h'' | h''
+            · obtain ⟨r, hr, hr1, hr2⟩ := hself h''
+              exact absurd hr2 (hBtempo p hp.1 r hr (by rw [hr1, h']))
+            · rw [h', h'']
+        rcases hBval w hw B hwv with ⟨p', hp', hB⟩ | hbefore
+        · have h1 : p'.time ≤ p.time := hp.2.2 p' hp'.1 (le_trans hp'.2.1 hwle)
+          have h2 : p.time ≤ p'.time := hp'.2.2 p hp.1 hpw
+          have := tp_eq_of_time hd hp'.1 hp.1 (le_antisymm h1 h2)
+          rw [hB, this]
+        · exact absurd (hbefore p hp.1) (not_lt.mpr hpw)
+    · exact absurd rfl (fun hv : ((pb.1, none) : Row).2 = none => hnone (pb.1, none) h hpbt hv)
+  · -- the multiplier column
+    have hMrows : ∀ u ∈ S.map (fun r => (r.t, r.mult)), u.1 = q.t →
+        ∃ m, u.2 = some m ∧ m ∈ activeMults svs p.time q.t := by
+      intro u hu hut
+      obtain ⟨q', hq', rfl⟩ := List.mem_map.mp hu
+      have hp' : IsActiveTp bpms q'.t p := by
+        have : q'.t = q.t := hut
+        rw [this]; exact hp
+      have := merged_mult_col bpms svs omin omax hmins q' (hmemS q' hq') p hp'
+      have hqt : q'.t = q.t := hut
+      rw [hqt] at this
+      exact this
+    rw [← hpmv]
+    rcases mem_bfill hpm with h | h
+    · obtain ⟨r, hr, hr1, hr2, _⟩ := ffill_source h
+      obtain ⟨m, hm, hmem⟩ := hMrows r hr (by rw [hr1, hpmt])
+      exact ⟨m, hr2 m hm, hmem⟩
+    · exfalso
+      obtain ⟨r, hr, hr1, _, hr3⟩ := ffill_source h
+      obtain ⟨m, hm, _⟩ := hMrows r hr (by rw [hr1]; exact hpmt)
+      rw [hr3 rfl] at hm
+      simp at hm
+
+/-- a frame row that is right where a tempo point is in force passes the executable row check -/
+theorem rowOkB_sv_of (bpms : List Tp) (svs : List Sv) (ref : Rat) (q : MRow)
+    (h : ∀ p, IsActiveTp bpms q.t p →
+      q.bpm = some p.bpm ∧ ∃ m, q.mult = some m ∧ m ∈ activeMults svs p.time q.t) :
+    rowOkB true bpms svs ref (speedOf ref q) = true := by
+  unfold rowOkB
+  rw [Bool.or_eq_true]
+  by_cases he : activeTps bpms q.t = []
+  · left
+    show (activeTps bpms q.t).isEmpty = true
+    rw [he]; rfl
+  · right
+    obtain ⟨p, hp⟩ := List.exists_mem_of_ne_nil _ he
+    obtain ⟨hb, m, hm, hmem⟩ := h p (mem_activeTps.mp hp)
+    have hval : (speedOf ref q).2 = some (p.bpm / ref * m) := by simp [speedOf, optMul, hb, hm]
+    rw [hval]
+    simp only [List.contains_iff_mem]
+    show p.bpm / ref * m ∈ allowedSpeeds true bpms svs ref q.t
+    simp only [allowedSpeeds, List.mem_flatMap, if_true, List.mem_map]
+    exact ⟨p, hp, m, hmem, rfl⟩
+
+theorem speedFrame_sv (bpms : List Tp) (svs : List Sv) (omin omax : Rat) :
+    speedFrame true bpms svs omin omax
+      = fillMerged (sortMRow (mergeOuter (bpmFrame bpms omin omax) (svFrame bpms svs omin omax))) := rfl
+
+theorem mem_fst_svFrame (bpms : List Tp) (svs : List Sv) (omin omax t : Rat) :
+    t ∈ (svFrame bpms svs omin omax).map (·.1) ↔
+      t ∈ bpms.map (·.time) ∨ t = omin ∨ t = omax ∨ t ∈ svs.map (·.time) := by
+  unfold svFrame
+  rw [map_fst_ffill, map_fst_groupLast, mem_groupKeys, mem_fst_svRows]
+
+/-- the offsets of the merged frame are exactly the breakpoints -/
+theorem mem_t_speedFrame_sv (bpms : List Tp) (svs : List Sv) (omin omax t : Rat) :
+    t ∈ (speedFrame true bpms svs omin omax).map (·.t) ↔
+      (t ∈ bpms.map (·.time) ∨ t ∈ svs.map (·.time)) ∨ t = omin ∨ t = omax := by
+  rw [speedFrame_sv, map_t_fillMerged]
+  have hperm := (isort_perm (fun a b : MRow => decide (a.t ≤ b.t))
+    (mergeOuter (bpmFrame bpms omin omax) (svFrame bpms svs omin omax))).map (·.t)
+  have h1 : t ∈ (sortMRow (mergeOuter (bpmFrame bpms omin omax) (svFrame bpms svs omin omax))).map (·.t)
+      ↔ t ∈ (mergeOuter (bpmFrame bpms omin omax) (svFrame bpms svs omin omax)).map (·.t) := hperm.mem_iff
+  rw [h1, mem_t_mergeOuter, mem_fst_bpmFrame, mem_fst_svFrame]
+  constructor
+  · rintro ((h | h | h) | (h | h | h | h))
+    · exact Or.inl (Or.inl h)
+    · exact Or.inr (Or.inl h)
+    · exact Or.inr (Or.inr h)
+    · exact Or.inl (Or.inl h)
+    · exact Or.inr (Or.inl h)
+    · exact Or.inr (Or.inr h)
+    · exact Or.inl (Or.inr h)
+  · rintro ((h | h) | h | h)
+    · exact Or.inl (Or.inl h)
+    · exact Or.inr (Or.inr (Or.inr (Or.inr h)))
+    · exact Or.inl (Or.inr (Or.inl h))
+    · exact Or.inl (Or.inr (Or.inr h))
+
+/-- **scroll_speed_sv_spec** — osu / Quaver charts, in full: the reference is the override or a dominant bpm, the
+result's offsets are exactly the breakpoints (tempo times ∪ SV times ∪ {first, last stacked offset}), and every
+value at or after a tempo point is `active bpm / reference · active SV multiplier` (an SV lasts until the next
+SV or tempo point; an SV on a tempo point wins over the reset; coinciding SVs: one of them). Hypothesis beyond
+those of `dominant_is_max`: no SV before the first stacked offset (it is the minimum over the SVs too). -/
+theorem scroll_speed_sv_spec (bpms : List Tp) (svs : List Sv) (omin omax : Rat) (ov : Option Rat)
+    (hne : bpms ≠ []) (hd : (bpms.map (·.time)).Nodup) (hL : ∀ p ∈ bpms, p.time ≤ omax)
+    (hov : ∀ b, ov = some b → b ≠ 0) (hmins : ∀ s ∈ svs, omin ≤ s.time) :
+    ∃ ref out, scrollSpeed true bpms svs omin omax ov = some out ∧ IsRef bpms omax ov ref ∧
+      speedOkB true bpms svs omin omax ref out = true := by
+  obtain ⟨ref, href, hout⟩ := scroll_speed_ref_partial true bpms svs omin omax ov hne hd hL hov
+  refine ⟨ref, _, hout, href, ?_⟩
+  simp only [speedOkB, Bool.and_eq_true, decide_eq_true_eq, List.all_eq_true]
+  constructor
+  · unfold breakpoints
+    apply groupKeys_congr
+    intro t
+    have hfst : ((speedFrame true bpms svs omin omax).map (speedOf ref)).map (·.1)
+        = (speedFrame true bpms svs omin omax).map (·.t) := by
+      simp [List.map_map, Function.comp_def, speedOf]
+    rw [hfst, mem_t_speedFrame_sv]
+    simp [or_assoc]
+  · intro y hy
+    obtain ⟨q, hq, rfl⟩ := List.mem_map.mp hy
+    exact rowOkB_sv_of bpms svs ref q (fun p hp => filled_frame_spec bpms svs omin omax hd hmins q hq p hp)
+
+/-- **scroll_speed_spec** — the statement of the property for `scroll_speed`, all games: for every chart with at
+least one tempo point, no two tempo points at one time, the last stacked offset at or after every tempo point,
+no SV before the first stacked offset, and any override ≠ 0, the model's result satisfies the executable
+specification `speedOkB` (the same definition the driver evaluates on the implementation's output) for a
+reference that is the override or a dominant bpm. -/
+theorem scroll_speed_spec (hasSv : Bool) (bpms : List Tp) (svs : List Sv) (omin omax : Rat) (ov : Option Rat)
+    (hne : bpms ≠ []) (hd : (bpms.map (·.time)).Nodup) (hL : ∀ p ∈ bpms, p.time ≤ omax)
+    (hov : ∀ b, ov = some b → b ≠ 0) (hmins : hasSv = true → ∀ s ∈ svs, omin ≤ s.time) :
+    ∃ ref out, scrollSpeed hasSv bpms svs omin omax ov = some out ∧ IsRef bpms omax ov ref ∧
+      speedOkB hasSv bpms svs omin omax ref out = true := by
+  cases hasSv with
+  | false => exact scroll_speed_nosv_spec bpms svs omin omax ov hne hd hL hov
+  | true => exact scroll_speed_sv_spec bpms svs omin omax ov hne hd hL hov (hmins rfl)
+
+/-- D28 on the model: the tempo frame of `[(0, 100), (1000, 200)]` with the last stacked offset at 1000. The
+arrangement `arr` is a permutation of the frame's rows and is sorted by offset — a legitimate result of an
+unstable sort — yet filling it produces the row (1000, 100), which the specification rejects (at 1000 the
+active bpm is 200); the stable arrangement the model uses does not. -/
+theorem sort_tie_counterexample :
+    let bpms : List Tp := [⟨0, 100⟩, ⟨1000, 200⟩]
+    let arr : List Row := [(0, some 100), (0, none), (1000, none), (1000, some 200)]
+    arr.Perm (bpmRows bpms 0 1000) ∧ arr.Pairwise (fun a b => a.1 ≤ b.1) ∧
+      (1000, some 100) ∈ bpmFrameOf arr ∧
+      rowOkB false bpms [] 100 (speedOf 100 ⟨1000, some 100, some 1⟩) = false ∧
+      tieAtMaxB bpms 1000 = true ∧
+      (1000, some 100) ∉ bpmFrame bpms 0 1000 := by decide +kernel
+
+/-! non-vacuity / worked instances: SV before the first tempo point, coinciding SVs, SV on a tempo point, tempo
+point after the last note; the model's output satisfies the executable specification -/
+example : scrollSpeed true [⟨0, 100⟩, ⟨1000, 200⟩] [⟨-500, 1/2⟩, ⟨1500, 2⟩, ⟨1500, 3⟩] (-500) 3000 none
+    = some [(-500, some (1/4)), (0, some (1/2)), (1000, some 1), (1500, some 3), (3000, some 3)] := by decide +kernel
+example : speedOkB true [⟨0, 100⟩, ⟨1000, 200⟩] [⟨-500, 1/2⟩, ⟨1500, 2⟩, ⟨1500, 3⟩] (-500) 3000 200
+    [(-500, some (1/4)), (0, some (1/2)), (1000, some 1), (1500, some 3), (3000, some 3)] = true := by decide +kernel
+example : scrollSpeed false [⟨1000, 200⟩, ⟨0, 100⟩] [] 0 1500 (some 50)
+    = some [(0, some 2), (1000, some 4), (1500, some 4)] := by decide +kernel
+
+end Reamber.Analysis
